@@ -627,7 +627,7 @@ def replay_run(w):
             cfg[k] = w[k]
     r = run_bane(cfg)
     if r['hung']:
-        return True, ('deadlock:stripes>pool' if not cfg.get('nanpatch') else 'deadlock:barrier-arrivals'), 'filter_image(rows=%(H)d, cores=%(cores)d, nslice=%(nslice)d, grid=%(step)d%s) did not return within 40 s' % cfg + (', blanks in the first stripe only' if cfg.get('nanpatch') else '')
+        return True, ('deadlock:stripes>pool' if not cfg.get('nanpatch') else 'deadlock:barrier-arrivals'), 'filter_image(rows=%d, cores=%d, nslice=%d, grid=%d%s) did not return within 40 s' % (cfg['H'], cfg['cores'], cfg['nslice'], cfg['step'], ', blanks in the first stripe only, mask=%s' % cfg.get('mask', True) if cfg.get('nanpatch') else '')
     if r['leaked']:
         return True, 'segment-leak', 'shared memory left behind: %s' % r['leaked']
     if 'raised' in r['result']:
